@@ -85,7 +85,10 @@ fn parts(id: &'static str, tier: Tier, seed: u64) -> Vec<Part> {
             Part { rule: props_e3::STRESS_REGISTER_RULE.to_string(), run: Box::new(|ctx, acc| props_e3::run_stress_register(ctx, acc)) },
         ],
         "C17" => vec![Part { rule: props_misc::C17_RULE.to_string(), run: Box::new(|ctx, acc| props_misc::run_c17(ctx, acc)) }],
-        "C19" => vec![Part { rule: props_misc::C19_RULE.to_string(), run: Box::new(|ctx, acc| props_misc::run_c19(ctx, acc)) }],
+        "C19" => vec![
+            Part { rule: props_misc::C19_RULE.to_string(), run: Box::new(|ctx, acc| props_misc::run_c19(ctx, acc)) },
+            Part { rule: props_misc::C19_INTERRUPTED_RULE.to_string(), run: Box::new(|ctx, acc| props_misc::run_c19_interrupted(ctx, acc)) },
+        ],
         "C10" => vec![Part { rule: props_misc::C10_RULE.to_string(), run: Box::new(|ctx, acc| props_misc::run_c10(ctx, acc)) }],
         "C16" => vec![Part { rule: props_misc::C16_RULE.to_string(), run: Box::new(|ctx, acc| props_misc::run_c16(ctx, acc)) }],
         "C11" => vec![Part { rule: props_c11::C11_RULE.to_string(), run: Box::new(|ctx, acc| props_c11::run_c11(ctx, acc)) }],
@@ -166,6 +169,7 @@ fn replay_case(id: &'static str, engine: &str, case: serde_json::Value) -> R<Cas
         "C11" => props_c11::replay_c11(case),
         "C08P" => props_misc::replay_c08_planted(case),
         "C18X" => props_misc::replay_c18x(case),
+        "C19I" => props_misc::replay_c19i(case),
         "C17" => props_misc::replay_c17(case),
         "C19" => props_misc::replay_c19(case),
         "C10" => props_misc::replay_c10(case),
